@@ -14,7 +14,7 @@ import (
 func init() {
 	register("C13", &propDef{
 		Title: "The bundle is a function of its inputs, not of order or scheduling",
-		Rules: []func(*Checker){ruleC13Maps, ruleC13Locks, ruleLockBalanced("C13.balanced"), ruleLocalMemo("C13.localmemo"), ruleC13Atomic, ruleC13Names, ruleChecksum("C13.checksum"), aliasRule(ruleC08Meta, "C08.meta", "C13.meta", 1), ruleHashAfterWalk("C13.hashafterwalk"), aliasRuleFiltered(ruleC03Arg, "C03.arg", "C13.relarg", 1, func(o Oblig) bool { return strings.Contains(o.Key, "sourcebundle.") }), aliasRuleFiltered(ruleC08SameJoin, "C08.samejoin", "C13.samejoin", 1, func(o Oblig) bool { return strings.Contains(o.Key, "success return") }), aliasRule(ruleC17Dep, "C17.dep", "C13.registry", 4), aliasRule(ruleC08NoDrop, "C08.nodrop", "C13.nodrop", 2), ruleFetchMemoOnly("C13.fetchmemo"), ruleRecordNotBehindMemo("C13.recordmemo"), ruleQueuesDrained("C13.drained"), ruleHashPrefixEmpty("C13.hashprefix"), ruleMetaFromOwnFetch("C13.metaown"), ruleMemoKeyedByRequest("C13.keyedbyrequest"), aliasRuleFiltered(ruleC14Memo, "C14.memo", "C13.memokey", 2, func(o Oblig) bool {
+		Rules: []func(*Checker){ruleC13Maps, ruleC13Locks, ruleLockBalanced("C13.balanced"), ruleLocalMemo("C13.localmemo"), ruleC13Atomic, ruleC13Names, ruleChecksum("C13.checksum"), aliasRule(ruleC08Meta, "C08.meta", "C13.meta", 1), ruleHashAfterWalk("C13.hashafterwalk"), aliasRuleFiltered(ruleC03Arg, "C03.arg", "C13.relarg", 1, func(o Oblig) bool { return strings.Contains(o.Key, "sourcebundle.") }), aliasRuleFiltered(ruleC08SameJoin, "C08.samejoin", "C13.samejoin", 1, func(o Oblig) bool { return strings.Contains(o.Key, "success return") }), aliasRule(ruleC17Dep, "C17.dep", "C13.registry", 4), aliasRule(ruleC08NoDrop, "C08.nodrop", "C13.nodrop", 2), ruleFetchMemoOnly("C13.fetchmemo"), ruleRecordNotBehindMemo("C13.recordmemo"), ruleQueuesDrained("C13.drained"), ruleHashPrefixEmpty("C13.hashprefix"), ruleMetaFromOwnFetch("C13.metaown"), ruleMemoKeyedByRequest("C13.keyedbyrequest"), ruleEnsureByPackageOnly("C13.pkgonly"), aliasRuleFiltered(ruleC14Memo, "C14.memo", "C13.memokey", 2, func(o Oblig) bool {
 			return strings.Contains(o.Key, "key ") || strings.Contains(o.Key, "result recorded")
 		})},
 		NotDecided: []string{
